@@ -478,6 +478,9 @@ def _judge_session(ctx, beh, obs, world, stats):
     n = len(beh["attr"])
     follows = True
     for k in range(1, n + 1):
+        if obs.get("aborted_after") and k > obs["aborted_after"]:
+            follows = False
+            continue                       # the session was abandoned after a call that never returned
         attr = beh["attr"][k - 1]
         got = obs["calls"][k]
         g = {"kind": got["kind"], "out": ss.normalise_output(got["out"]) if got["kind"] == "ok" else "",
@@ -660,8 +663,9 @@ def _replay_real_batch(ctx, behs, stats):
         async def guarded_one(b):
             async with sem:
                 obs = await one(b, T1, 7 * T1)
-                if not follows(b, obs):
+                if not follows(b, obs) and not obs.get("aborted_after"):
                     # not what the specification predicts: repeat with much larger margins before believing it
+                    # (a call without timeout that never returned is not a matter of margins: judged as it is)
                     stats["real:repeated_with_larger_margins"] += 1
                     T2 = 4 * T1
                     obs = await one(b, T2, 7 * T2)
@@ -738,15 +742,26 @@ async def _unicode_outputs(ctx, stats):
     big.append(("mixed-lines", "\n".join("x" * (i % 7) + "\u20ac" * 150 + "\U0001f600" * (i % 5) + "\u00e9" * (i % 3)
                                         for i in range(ctx.pick(300, 1500)))))
     texts += [(name, t, bs) for name, t in big for bs in (65536, 4099)]
+    import time as _time
+    slow = 0
     try:
         for idx, (name, text, bs) in enumerate(texts):
             if bs not in conns:
                 conns[bs] = Remote("vh-unicode-%d" % bs, root, bs)
             for nl in (0, 1):
+                if slow >= 3:
+                    # three commands already ran into the (generous) timeout of the shell path, each one reported below
+                    # as a violation: the rest of the family would only wait for the same timeout again
+                    stats["real:unicode_output_cases_skipped_after_timeouts"] += 1
+                    continue
                 path = os.path.join(root, "t%d_%d.txt" % (idx, nl))
                 with open(path, "w", encoding="utf-8") as f:
                     f.write(text + ("\n" if nl else ""))
-                res, exc = await se.guarded(conns[bs].run(loc, ["cat", path], capture_output=True, timeout=120), 200)
+                limit = 30 if name.startswith("small") else 120
+                t0 = _time.time()
+                res, exc = await se.guarded(conns[bs].run(loc, ["cat", path], capture_output=True, timeout=limit), limit + 60)
+                if _time.time() - t0 >= 0.9 * limit:
+                    slow += 1
                 ctx.case(("unicode", name, bs, nl))
                 stats["real:unicode_output_cases"] += 1
                 want = (text, 0)
